@@ -189,6 +189,15 @@ Proof.
     { destruct RR as [->|RR]; [left; reflexivity|right; left; exact RR]. }
     destruct (after_rpc_K s1 true) as (A1 & A2 & A3 & A4 & _).
     eapply FIN; [|exact H]. eapply PRE_frame; [apply PRE_hres; eassumption|assumption..].
+  - (* append request cut short *)
+    apply obind_inv in H. destruct H as ([code s1] & H1 & H).
+    change (env_ok s (EAppendReq q)) in EN.
+    destruct (append_ok _ _ _ _ _ C EN H1) as [HR RR].
+    destruct (code =? unexpectedErr); [discriminate|].
+    assert (R : rstep s s1).
+    { destruct RR as [->|RR]; [left; reflexivity|right; left; exact RR]. }
+    destruct (after_rpc_K s1 true) as (A1 & A2 & A3 & A4 & _).
+    eapply FIN; [|exact H]. eapply PRE_frame; [apply PRE_hres; eassumption|assumption..].
   - (* install snapshot *)
     apply obind_inv in H. destruct H as ([code s1] & H1 & H).
     destruct (snap_ok _ _ _ _ _ C EN H1) as [HR RR].
